@@ -53,6 +53,8 @@ enum HOp {
     Bump,
     /// begin(ReadCommitted) + commit: the version bump a transaction commit performs
     TxnBump,
+    /// advance the version by n at once: current_version += n, or n begin+commit pairs
+    BumpBy { n: u64, via_commit: bool },
     DelEdge,
     DelNode { slot: u8 },
     // --- C08 only
@@ -80,6 +82,7 @@ impl Shape {
             HOp::CreateEdge { .. } => !self.edge && self.node[0] && self.node[1],
             HOp::SetEdge { key } | HOp::RemEdge { key } => (*key as usize) < 2 && self.edge,
             HOp::Bump | HOp::TxnBump => true,
+            HOp::BumpBy { n, .. } => *n >= 1 && *n <= 5000,
             HOp::DelEdge => self.edge,
             HOp::DelNode { slot } => (*slot as usize) < 2 && self.node[*slot as usize],
             HOp::Begin { .. } => self.txns.len() < 4,
@@ -171,6 +174,17 @@ fn apply_store(store: &mut GraphStore, live: &mut Live, op: &HOp, val: i64) -> R
         HOp::TxnBump => {
             let t = store.begin_transaction(IsolationLevel::ReadCommitted);
             store.commit_transaction(t).map_err(|e| format!("commit of an empty transaction refused: {e}"))?;
+            Ok(None)
+        }
+        HOp::BumpBy { n, via_commit } => {
+            if *via_commit {
+                for _ in 0..*n {
+                    let t = store.begin_transaction(IsolationLevel::ReadCommitted);
+                    store.commit_transaction(t).map_err(|e| format!("commit of an empty transaction refused: {e}"))?;
+                }
+            } else {
+                store.current_version += *n;
+            }
             Ok(None)
         }
         HOp::DelEdge => {
@@ -500,6 +514,7 @@ impl Model {
                 }
             }
             HOp::Bump | HOp::TxnBump | HOp::Commit { .. } => self.cur += 1,
+            HOp::BumpBy { n, .. } => self.cur += *n,
             HOp::Begin { .. } => self.txn_count += 1,
             HOp::Abort { .. } | HOp::Gc { .. } | HOp::GcAuto => {}
             HOp::DelEdge => self.delete_edge(),
@@ -793,7 +808,7 @@ fn c07_classes(ops: &[HOp], ev: &mut Evidence) {
     let (mut upd_after_bump, mut del_after_bump, mut recreate, mut rem) = (false, false, false, false);
     for o in ops {
         match o {
-            HOp::Bump | HOp::TxnBump => bumped = true,
+            HOp::Bump | HOp::TxnBump | HOp::BumpBy { .. } => bumped = true,
             HOp::SetNode { .. } | HOp::SetEdge { .. } if bumped => upd_after_bump = true,
             HOp::RemNode { .. } | HOp::RemEdge { .. } => rem = true,
             HOp::DelNode { .. } | HOp::DelEdge => {
@@ -975,6 +990,38 @@ fn c07(args: &Args) {
         }
     }
 
+    // long version gaps: the same random histories with up to two of their bumps replaced by a
+    // jump of a boundary-sized distance; all versions 1..=current are read after the last step
+    if failure.is_none() {
+        let n = args.tier.pick(300usize, 5000usize);
+        let strat = (proptest::collection::vec((0u8..16, 0u16..8), 4..=14), 0u16..=u16::MAX, 0u16..=u16::MAX, proptest::bool::ANY);
+        for (raw, s1, s2, via_commit) in generate(args.seed ^ 0x6a9, n, &strat) {
+            let mut ops = c07_build(&raw);
+            let bumps: Vec<usize> = (0..ops.len()).filter(|i| matches!(ops[*i], HOp::Bump | HOp::TxnBump)).collect();
+            if bumps.is_empty() {
+                ops.push(HOp::BumpBy { n: GAPS[pick_idx(s1, GAPS.len())], via_commit });
+            } else {
+                let i1 = bumps[pick_idx(s1, bumps.len())];
+                ops[i1] = HOp::BumpBy { n: GAPS[pick_idx(s2, GAPS.len())], via_commit };
+                let i2 = bumps[pick_idx(s2, bumps.len())];
+                if i2 != i1 {
+                    ops[i2] = HOp::BumpBy { n: GAPS[pick_idx(s1.wrapping_mul(31), GAPS.len())], via_commit: !via_commit };
+                }
+            }
+            ev.case();
+            match c07_eval(&ops, false, q, &engine) {
+                Ok(o) => {
+                    account(&mut ev, &ops, &o, "long_version_gap");
+                }
+                Err(m) => {
+                    ev.frozen = true;
+                    failure = Some((ops, m));
+                    break;
+                }
+            }
+        }
+    }
+
     if let Some((ops, msg)) = failure {
         let fails = |cand: &[HOp]| -> bool { !cand.is_empty() && Shape::valid(cand) && c07_eval(cand, true, q, &engine).is_err() };
         let min = if fails(&ops) { shrink_vec(ops, &fails) } else { ops };
@@ -989,12 +1036,33 @@ fn c07(args: &Args) {
 
 /// every read C08 must see preserved: (entity, version) for versions lo..=current, the
 /// current reads, and (when asked) every read of every listed transaction
-fn c08_reads(store: &GraphStore, lo: u64, txns: &[(usize, u64)]) -> BTreeMap<String, Option<String>> {
+/// versions lo..=cur to read: all of them for short ranges; for long ranges both ends and the
+/// neighbourhood of every version at which something was written or a transaction began
+fn c08_versions(lo: u64, cur: u64, marks: &BTreeSet<u64>) -> Vec<u64> {
+    let lo = lo.max(1);
+    if cur < lo {
+        return Vec::new();
+    }
+    if cur - lo <= 256 {
+        return (lo..=cur).collect();
+    }
+    let mut vs: BTreeSet<u64> = (lo..=lo + 2).chain(cur - 2..=cur).collect();
+    for m in marks {
+        for v in m.saturating_sub(1)..=m + 1 {
+            if v >= lo && v <= cur {
+                vs.insert(v);
+            }
+        }
+    }
+    vs.into_iter().collect()
+}
+
+fn c08_reads(store: &GraphStore, lo: u64, txns: &[(usize, u64)], marks: &BTreeSet<u64>) -> BTreeMap<String, Option<String>> {
     let mut m = BTreeMap::new();
-    let cur = store.current_version;
+    let versions = c08_versions(lo, store.current_version, marks);
     for id in 1..=NODE_IDS {
         let nid = NodeId::new(id);
-        for v in lo.max(1)..=cur {
+        for &v in &versions {
             m.insert(format!("get_node_at_version({id}, {v})"), store.get_node_at_version(nid, v).map(node_str));
         }
         m.insert(format!("get_node({id})"), store.get_node(nid).map(node_str));
@@ -1004,7 +1072,7 @@ fn c08_reads(store: &GraphStore, lo: u64, txns: &[(usize, u64)]) -> BTreeMap<Str
     }
     for id in 1..=EDGE_IDS {
         let eid = EdgeId::new(id);
-        for v in lo.max(1)..=cur {
+        for &v in &versions {
             m.insert(format!("get_edge_at_version({id}, {v})"), store.get_edge_at_version(eid, v).as_ref().map(edge_str));
         }
         m.insert(format!("get_edge({id})"), store.get_edge(eid).as_ref().map(edge_str));
@@ -1032,6 +1100,8 @@ struct C08Out {
     auto: u32,
     auto_with_active: bool,
     w_above_txn_start: bool,
+    /// largest (current_version - start_version) of an active transaction at a gc_auto
+    max_auto_lag: u64,
 }
 
 /// ops of the C08 domain: the operations for which C07 holds + transactions + GC
@@ -1049,6 +1119,8 @@ fn c08_run(ops: &[HOp]) -> Result<C08Out, String> {
     let mut wmax: u64 = 0;
     let mut gc_seen = false;
     let mut out = C08Out::default();
+    // versions at which something was written or a transaction began (read sampling, long ranges)
+    let mut marks: BTreeSet<u64> = BTreeSet::new();
     for (i, op) in ops.iter().enumerate() {
         let val = i as i64 + 1;
         let active: Vec<(usize, u64)> = (0..shape.txns.len()).filter(|t| shape.txns[*t]).map(|t| (t, la.txns[t])).collect();
@@ -1059,9 +1131,9 @@ fn c08_run(ops: &[HOp]) -> Result<C08Out, String> {
                 // manual watermark: only reads at versions >= w are owed; gc_auto also owes every
                 // read of every active transaction
                 let owed_txns: Vec<(usize, u64)> = if auto { active.clone() } else { Vec::new() };
-                let before = c08_reads(&a, w, &owed_txns);
+                let before = c08_reads(&a, w, &owed_txns, &marks);
                 let (np, ep) = if auto { a.gc_auto() } else { a.gc_versions(w) };
-                let after = c08_reads(&a, w, &owed_txns);
+                let after = c08_reads(&a, w, &owed_txns, &marks);
                 if let Some(d) = map_diff(&before, &after) {
                     return Err(format!("step {i} ({op:?}, watermark {w}, current_version {}) changed a read it must preserve: {d} (before vs after; pruned {np} node versions, {ep} log entries)", a.current_version));
                 }
@@ -1070,6 +1142,9 @@ fn c08_run(ops: &[HOp]) -> Result<C08Out, String> {
                 if auto {
                     out.auto += 1;
                     out.auto_with_active |= !active.is_empty();
+                    for (t, _) in &active {
+                        out.max_auto_lag = out.max_auto_lag.max(a.current_version - tinfo[*t].1);
+                    }
                 } else {
                     out.manual += 1;
                     out.w_above_txn_start |= active.iter().any(|(t, _)| tinfo[*t].1 < w);
@@ -1083,6 +1158,7 @@ fn c08_run(ops: &[HOp]) -> Result<C08Out, String> {
                 }
                 let ra = apply_store(&mut a, &mut la, op, val).map_err(|e| format!("step {i} ({op:?}): {e}"))?;
                 let rb = apply_store(&mut b, &mut lb, op, val).map_err(|e| format!("step {i} ({op:?}) on the twin: {e}"))?;
+                marks.insert(a.current_version);
                 if ra != rb {
                     return Err(format!("step {i} ({op:?}) allocated id {ra:?} after GC but {rb:?} without"));
                 }
@@ -1095,8 +1171,8 @@ fn c08_run(ops: &[HOp]) -> Result<C08Out, String> {
                 return Err(format!("after step {i} ({op:?}): current_version {} vs {} on the twin that never collected", a.current_version, b.current_version));
             }
             let owed: Vec<(usize, u64)> = (0..shape.txns.len()).filter(|t| shape.txns[*t] && (!tinfo[*t].0 || tinfo[*t].1 >= wmax)).map(|t| (t, la.txns[t])).collect();
-            let ra = c08_reads(&a, wmax, &owed);
-            let rb = c08_reads(&b, wmax, &owed);
+            let ra = c08_reads(&a, wmax, &owed, &marks);
+            let rb = c08_reads(&b, wmax, &owed, &marks);
             if let Some(d) = map_diff(&rb, &ra) {
                 return Err(format!("after step {i} ({op:?}): a read at a version >= every watermark used ({wmax}) differs from the twin store that never collected: {d} (twin vs collected)"));
             }
@@ -1110,6 +1186,48 @@ fn c08_eval(ops: &[HOp]) -> Result<C08Out, String> {
         Ok(r) => r,
         Err(p) => Err(format!("panic: {p}")),
     }
+}
+
+/// version distances around typical constant boundaries (lag limits, ring sizes, batch sizes)
+const GAPS: [u64; 17] = [1, 2, 31, 32, 33, 63, 64, 65, 66, 127, 128, 129, 255, 256, 257, 1000, 1025];
+
+/// Long-version-gap history: entities with some history, transactions begun, then the version
+/// advanced by `gap` (in two legs with entity writes between them, so that an entity has a
+/// version at or below the transactions' start and a newer one far below the final version),
+/// then gc_auto(), a few more writes and a second gc_auto().
+fn c08_gap_history(gap: u64, leg1: u64, writes: u8, via_commit: bool, txns: u8, pre: bool, tail: bool) -> Vec<HOp> {
+    let mut ops = vec![HOp::CreateNode { slot: 0, props: true }, HOp::CreateNode { slot: 1, props: false }, HOp::CreateEdge { props: true }, HOp::SetEdge { key: 0 }];
+    if pre {
+        ops.extend([HOp::Bump, HOp::SetNode { slot: 0, key: 0 }, HOp::SetEdge { key: 1 }, HOp::Bump]);
+    }
+    match txns % 5 {
+        0 => ops.push(HOp::Begin { si: true }),
+        1 => ops.extend([HOp::Begin { si: true }, HOp::Begin { si: false }]),
+        2 => ops.extend([HOp::Begin { si: false }, HOp::Begin { si: true }]),
+        3 => ops.extend([HOp::Begin { si: true }, HOp::Bump, HOp::SetNode { slot: 1, key: 0 }, HOp::Begin { si: true }]),
+        _ => ops.push(HOp::Begin { si: false }),
+    }
+    let leg1 = leg1.min(gap);
+    if leg1 > 0 {
+        ops.push(HOp::BumpBy { n: leg1, via_commit });
+    }
+    if writes & 1 != 0 {
+        ops.push(HOp::SetNode { slot: 0, key: 0 });
+    }
+    if writes & 2 != 0 {
+        ops.push(HOp::SetEdge { key: 0 });
+    }
+    if writes & 4 != 0 {
+        ops.push(HOp::SetNode { slot: 1, key: 1 });
+    }
+    if gap > leg1 {
+        ops.push(HOp::BumpBy { n: gap - leg1, via_commit });
+    }
+    ops.push(HOp::GcAuto);
+    if tail {
+        ops.extend([HOp::SetNode { slot: 0, key: 1 }, HOp::SetEdge { key: 0 }, HOp::Bump, HOp::GcAuto, HOp::Commit { t: 0 }, HOp::GcAuto]);
+    }
+    ops
 }
 
 fn c08_build(raw: &[(u8, u16)]) -> Vec<HOp> {
@@ -1126,7 +1244,8 @@ fn c08_build(raw: &[(u8, u16)]) -> Vec<HOp> {
             1 | 2 | 3 => vec![HOp::SetNode { slot, key }, HOp::CreateNode { slot, props: flag }],
             4 => vec![HOp::CreateEdge { props: flag }, HOp::CreateNode { slot: 0, props: false }, HOp::CreateNode { slot: 1, props: false }],
             5 | 6 | 7 => vec![HOp::SetEdge { key }, HOp::CreateEdge { props: flag }, HOp::CreateNode { slot: 0, props: false }, HOp::CreateNode { slot: 1, props: false }],
-            8 | 9 | 10 => vec![HOp::Bump],
+            8 | 9 => vec![HOp::Bump],
+            10 => vec![if sel & 0x300 == 0 { HOp::BumpBy { n: GAPS[pick_idx(sel.wrapping_mul(25173), GAPS.len())], via_commit: flag } } else { HOp::Bump }],
             11 | 12 => vec![HOp::Begin { si: flag }, HOp::Bump],
             13 => vec![HOp::Commit { t }, HOp::Commit { t: 0 }, HOp::Commit { t: 1 }, HOp::Begin { si: flag }],
             14 => vec![HOp::Abort { t }, HOp::Abort { t: 0 }, HOp::Begin { si: flag }],
@@ -1136,6 +1255,9 @@ fn c08_build(raw: &[(u8, u16)]) -> Vec<HOp> {
         if let Some(op) = cands.into_iter().find(|o| s.applicable(o)) {
             if matches!(op, HOp::Bump | HOp::Commit { .. }) {
                 cur += 1;
+            }
+            if let HOp::BumpBy { n, .. } = &op {
+                cur += *n;
             }
             s.apply(&op);
             ops.push(op);
@@ -1148,7 +1270,7 @@ fn c08(args: &Args) {
     let mut ev = Evidence::new(
         args,
         "exploration",
-        "version histories over 2 nodes + 1 relationship restricted to the operations for which C07 holds (create, set property, version bump, begin/commit/abort of RC and SI transactions) with gc_versions(w) for every w in 0..=current+1 and gc_auto() inserted at every position (bounded-exhaustive part), plus random histories with several collections. Oracle: on the collecting store every get_node_at_version/get_edge_at_version at versions >= w and every current read is identical immediately before and after the call; for gc_auto additionally every get_node_for_txn/get_edge_for_txn of every active transaction; after every later step the same reads equal those of a twin store that ran the history without collecting. Non-trivial = the history's collections pruned at least one version; distinct = distinct histories.",
+        "version histories over 2 nodes + 1 relationship restricted to the operations for which C07 holds (create, set property, version bump, begin/commit/abort of RC and SI transactions) with gc_versions(w) for every w in 0..=current+1 and gc_auto() inserted at every position (bounded-exhaustive part), plus random histories with several collections. Oracle: on the collecting store every get_node_at_version/get_edge_at_version at versions >= w and every current read is identical immediately before and after the call; for gc_auto additionally every get_node_for_txn/get_edge_for_txn of every active transaction; after every later step the same reads equal those of a twin store that ran the history without collecting. A long-version-gap generator (class long_version_gap) begins SI/RC transactions, advances the version by 1..1100 (grid over 1,2,31-33,63-66,127-129,255-257,1000,1025 plus generated distances; direct jumps and runs of commits) with entity writes early in the gap, then gc_auto(). Over ranges longer than 256 versions the reads are taken at both ends and around every version written or begun at. Non-trivial = the history's collections pruned at least one version; distinct = distinct histories.",
     );
     ev.assume("for a hand-picked gc_versions(w), reads below w - including those of a transaction that started below w - may change (the caller chose w); only gc_auto owes active transactions their reads");
     ev.assume("histories exclude remove-property and delete, which already break versioned reads without GC (C07 known findings)");
@@ -1169,6 +1291,18 @@ fn c08(args: &Args) {
         }
         if o.manual + o.auto > 1 {
             ev.class("several_collections");
+        }
+        if o.max_auto_lag >= 30 {
+            ev.class("long_version_gap");
+            ev.class(match o.max_auto_lag {
+                0..=62 => "gc_auto_txn_lag_30_62",
+                63..=66 => "gc_auto_txn_lag_63_66",
+                67..=126 => "gc_auto_txn_lag_67_126",
+                127..=129 => "gc_auto_txn_lag_127_129",
+                130..=254 => "gc_auto_txn_lag_130_254",
+                255..=257 => "gc_auto_txn_lag_255_257",
+                _ => "gc_auto_txn_lag_over_257",
+            });
         }
         if o.pruned > 0 {
             ev.nontrivial(ops);
@@ -1281,6 +1415,41 @@ fn c08(args: &Args) {
     }
     ev.exhaustive = Some(failure.is_none());
 
+    // long version gaps: active SI/RC transactions far behind the current version at gc_auto().
+    // systematic grid over boundary distances, then generated distances
+    if failure.is_none() {
+        let mut cases: Vec<Vec<HOp>> = Vec::new();
+        for &gap in GAPS.iter() {
+            for leg1 in [0u64, 1, 2, gap / 2] {
+                for writes in [1u8, 2, 3, 7] {
+                    for via_commit in [false, true] {
+                        for txns in 0..5u8 {
+                            for pre in [false, true] {
+                                cases.push(c08_gap_history(gap, leg1, writes, via_commit, txns, pre, txns % 2 == 0));
+                            }
+                        }
+                    }
+                }
+            }
+        }
+        let n = args.tier.pick(3000usize, 100_000usize);
+        let strat = (1u64..=1100, 0u64..=1100, 0u8..8, proptest::bool::ANY, 0u8..5, proptest::bool::ANY, proptest::bool::ANY);
+        for (gap, leg1, writes, via_commit, txns, pre, tail) in generate(args.seed ^ 0x9a9, n, &strat) {
+            cases.push(c08_gap_history(gap, leg1 % (gap + 1), writes, via_commit, txns, pre, tail));
+        }
+        for ops in cases {
+            ev.case();
+            match c08_eval(&ops) {
+                Ok(o) => account(&mut ev, &ops, &o, "long_gap_generator"),
+                Err(m) => {
+                    ev.frozen = true;
+                    failure = Some((ops, m));
+                    break;
+                }
+            }
+        }
+    }
+
     // random histories from an empty store, several collections each
     if failure.is_none() {
         let n = args.tier.pick(20_000usize, 3_000_000usize);
@@ -1305,7 +1474,29 @@ fn c08(args: &Args) {
 
     if let Some((ops, msg)) = failure {
         let fails = |cand: &[HOp]| -> bool { !cand.is_empty() && Shape::valid(cand) && c08_eval(cand).is_err() };
-        let min = if fails(&ops) { shrink_vec(ops, &fails) } else { ops };
+        let mut min = if fails(&ops) { shrink_vec(ops, &fails) } else { ops };
+        // then shrink the jump sizes
+        loop {
+            let mut changed = false;
+            for i in 0..min.len() {
+                if let HOp::BumpBy { n, via_commit } = min[i].clone() {
+                    for cand_n in [n / 2, n - 1] {
+                        if cand_n >= 1 && cand_n < n {
+                            let mut c = min.clone();
+                            c[i] = HOp::BumpBy { n: cand_n, via_commit };
+                            if fails(&c) {
+                                min = c;
+                                changed = true;
+                                break;
+                            }
+                        }
+                    }
+                }
+            }
+            if !changed {
+                break;
+            }
+        }
         let msg2 = c08_eval(&min).err().unwrap_or(msg);
         report_violation(&mut ev, &json!({ "ops": min }), &msg2);
     }
